@@ -310,6 +310,30 @@ def run_job(job, rec):
             rec.check(high.min() >= xg[0] - span_tol and high.max() <= xg[-1] + span_tol, "high-density-region-not-covered",
                       lambda: f"variable {i}: conditional exceeds exp(-7.9) of its peak on [{high.min()!r}, {high.max()!r}] but the grid is [{xg[0]!r}, {xg[-1]!r}]", ictx)
 
+        # history: the same conditioning-point array, moved in place (inside the same restrictions), then used again
+        if d >= 1:
+            shift = np.array([0.3 * post.cond(i, point)[1] * rng.choice([-1, 1]) for i in range(d)])
+            newp = np.clip(point + shift, [b[0] for b in bounds], [b[1] for b in bounds])
+            point[:] = newp
+            out2 = guarded(get_conditionals, post, bounds, point, gsz)
+            rec.count("in_place_point_updates")
+            if isinstance(out2, Raised):
+                rec.violation("raised", f"get_conditionals raised {out2!r} on the second call", ctx)
+            else:
+                ax2, pr2 = np.asarray(out2[0], float), np.asarray(out2[1], float)
+                worst = 0.0
+                for i in range(d):
+                    def L2(v, i=i):
+                        t = point.copy()
+                        t[i] = v
+                        return post(t)
+
+                    good = pr2[:, i] > 0
+                    ratio = np.log(pr2[good, i]) - np.array([L2(v) for v in ax2[good, i]])
+                    worst = max(worst, float(np.ptp(ratio)))
+                rec.check(worst <= 1e-8, "not-proportional-to-conditional",
+                          lambda: f"after the conditioning point was moved in place, the tabulated conditionals are not those through the new point (log-ratio varies by {worst:.3e}; {post.kind})", ctx)
+
         # conditional samples: inside the bounds and distributed as the true conditionals
         if c % 2 == 0:
             ns = 6000
